@@ -604,11 +604,16 @@ func (n *node) RouteLinkPID(pid gen.PID, target gen.PID) error {
 		return err
 	}
 
-	if err := connection.LinkPID(pid, target); err != nil {
+	// register the relation before asking the remote node: the notification about the
+	// target (or about the loss of the connection) may arrive before the reply does
+	if err := n.targetManager.AddLink(pid, target); err != nil {
 		return err
 	}
-
-	return n.targetManager.AddLink(pid, target)
+	if err := connection.LinkPID(pid, target); err != nil {
+		n.targetManager.RemoveLink(pid, target)
+		return err
+	}
+	return nil
 }
 
 func (n *node) RouteUnlinkPID(pid gen.PID, target gen.PID) error {
@@ -680,11 +685,15 @@ func (n *node) RouteLinkProcessID(pid gen.PID, target gen.ProcessID) error {
 		return err
 	}
 
-	if err := connection.LinkProcessID(pid, target); err != nil {
+	// relation first (see RouteLinkPID)
+	if err := n.targetManager.AddLink(pid, target); err != nil {
 		return err
 	}
-
-	return n.targetManager.AddLink(pid, target)
+	if err := connection.LinkProcessID(pid, target); err != nil {
+		n.targetManager.RemoveLink(pid, target)
+		return err
+	}
+	return nil
 }
 
 func (n *node) RouteUnlinkProcessID(pid gen.PID, target gen.ProcessID) error {
@@ -753,11 +762,15 @@ func (n *node) RouteLinkAlias(pid gen.PID, target gen.Alias) error {
 		return err
 	}
 
-	if err := connection.LinkAlias(pid, target); err != nil {
+	// relation first (see RouteLinkPID)
+	if err := n.targetManager.AddLink(pid, target); err != nil {
 		return err
 	}
-
-	return n.targetManager.AddLink(pid, target)
+	if err := connection.LinkAlias(pid, target); err != nil {
+		n.targetManager.RemoveLink(pid, target)
+		return err
+	}
+	return nil
 }
 
 func (n *node) RouteUnlinkAlias(pid gen.PID, target gen.Alias) error {
@@ -968,10 +981,15 @@ func (n *node) RouteMonitorPID(pid gen.PID, target gen.PID) error {
 		return err
 	}
 
-	if err := connection.MonitorPID(pid, target); err != nil {
+	// relation first (see RouteLinkPID)
+	if err := n.targetManager.AddMonitor(pid, target); err != nil {
 		return err
 	}
-	return n.targetManager.AddMonitor(pid, target)
+	if err := connection.MonitorPID(pid, target); err != nil {
+		n.targetManager.RemoveMonitor(pid, target)
+		return err
+	}
+	return nil
 }
 
 func (n *node) RouteDemonitorPID(pid gen.PID, target gen.PID) error {
@@ -1047,10 +1065,15 @@ func (n *node) RouteMonitorProcessID(pid gen.PID, target gen.ProcessID) error {
 		return err
 	}
 
-	if err := connection.MonitorProcessID(pid, target); err != nil {
+	// relation first (see RouteLinkPID)
+	if err := n.targetManager.AddMonitor(pid, target); err != nil {
 		return err
 	}
-	return n.targetManager.AddMonitor(pid, target)
+	if err := connection.MonitorProcessID(pid, target); err != nil {
+		n.targetManager.RemoveMonitor(pid, target)
+		return err
+	}
+	return nil
 }
 
 func (n *node) RouteDemonitorProcessID(pid gen.PID, target gen.ProcessID) error {
@@ -1122,11 +1145,15 @@ func (n *node) RouteMonitorAlias(pid gen.PID, target gen.Alias) error {
 		return err
 	}
 
-	if err := connection.MonitorAlias(pid, target); err != nil {
+	// relation first (see RouteLinkPID)
+	if err := n.targetManager.AddMonitor(pid, target); err != nil {
 		return err
 	}
-
-	return n.targetManager.AddMonitor(pid, target)
+	if err := connection.MonitorAlias(pid, target); err != nil {
+		n.targetManager.RemoveMonitor(pid, target)
+		return err
+	}
+	return nil
 }
 
 func (n *node) RouteDemonitorAlias(pid gen.PID, target gen.Alias) error {
